@@ -125,7 +125,16 @@ Loadable(tree, e) ==
 \*   A directory may be mentioned SEVERAL times in the same list (under the same or different spellings): it is
 \*   still one component directory.  A directory root without mentions is just a directory of the project.
 \* App roots (kind "app") are <app package>/<path>: r.app = the parts of the app's package name, r.prefix =
-\*   r.app followed by the path segments.
+\*   r.app followed by the path segments.  r.reach says how the file system leads there - it means nothing for
+\*   what is found and under which dotted path (an installed app is the package Python imported under its name,
+\*   <app>/<path> the directory that path leads to):
+\*     "plain"    the app package lies in an ordinary sys.path entry, <app>/<path> is a directory in it
+\*     "pathlink" the app package was located through a sys.path entry that is a symbolic link (current ->
+\*                releases/42, a linked site-packages): the app's path as Python / Django know it contains the link
+\*     "dirlink"  <app>/<path> is itself a symbolic link to a directory elsewhere (a shared directory which is
+\*                not importable under any other name)
+\*   The files are the app's modules <app>.<path>.<...> in each case, returned once.  Project directories have
+\*   reach "plain" (their spellings are in src).
 \* cfg.dirs \in {"unset", "set"}: COMPONENTS.dirs is not given / given; the given list is exactly the mentions
 \*   "dirs" of the roots, so it is EMPTY when there is none.  Likewise STATICFILES_DIRS is the list of "static"
 \*   mentions (Django's default: empty).
@@ -137,6 +146,7 @@ Loadable(tree, e) ==
 \*   - app directories: <app>/<path> for every entry of app_dirs (default "components"; none for <<>>).
 Spells == {"plain", "slash", "dot", "dotdot", "updown", "alias"}
 AppSpells == {"plain", "slash", "dot"}
+AppReaches == {"plain", "pathlink", "dirlink"}
 In(r, w) == \E i \in DOMAIN r.src : r.src[i].in = w
 StaticGiven(roots) == \E k \in DOMAIN roots : roots[k].kind = "dirs" /\ In(roots[k], "static")
 AppPaths(cfg) == IF cfg.appdirs = "unset" THEN {<<"components">>} ELSE {cfg.appnames[i].segs : i \in DOMAIN cfg.appnames}
@@ -156,6 +166,7 @@ CfgWellFormed(cfg, roots) ==
        /\ roots[k].src[i].spell \in Spells
        /\ roots[k].src[i].spell = "alias" => roots[k].alias # <<>>
   /\ \A k \in DOMAIN roots : roots[k].kind = "app" => IsPrefix(roots[k].app, roots[k].prefix)
+  /\ \A k \in DOMAIN roots : roots[k].reach \in AppReaches /\ (roots[k].kind = "dirs" => roots[k].reach = "plain")
   /\ cfg.base \in {"plain", "dotdot", "alias"}
   /\ \A i \in DOMAIN cfg.appnames : cfg.appnames[i].segs # <<>> /\ cfg.appnames[i].spell \in AppSpells
   /\ \A i, j \in DOMAIN cfg.appnames :
@@ -170,6 +181,8 @@ Expected(cfg, roots, trees, sfx) ==
   UNION {{Row(k, roots[k], e, 1) : e \in {x \in trees[k] : Selected(x, sfx)}} : k \in Active(cfg, roots)}
 \* cfg.base: how BASE_DIR itself is spelled ("plain" / "dotdot": /base/conf/.. / "alias": a symbolic link to the
 \* project directory).  It is the project root however it is spelled: Expected does not look at it.
+\* Likewise roots[k].reach (an app located through a linked sys.path entry, an app directory that is a link):
+\* the app directory is a component directory of that app however the file system leads to it.
 
 (* ---- named deviations of the implementation ---------------------------- *)
 \* Each deviation has a trigger (the shape of the case) and a predicted wrong outcome; a failing observation
